@@ -238,7 +238,9 @@ def obligations(tier):
                   desc='container histories up to %d containers, each declaring an encoding or not, symbolic probe preambles: '
                        'bytes == REF_WRITE (inheritance from the nearest declaring ancestor)' % K, bounds={'containers': K}))
     NM = 1 if quick else 2
-    menc = _enc_configs(cat) if not quick else [(None, 'utf-8'), ('utf-16', 'utf-8'), (None, 'utf-32-be'), ('latin-1', 'utf-16'), (None, 'ascii')]
+    menc = [(None, 'utf-8'), ('utf-16', 'utf-8'), (None, 'utf-32-be'), ('latin-1', 'utf-16'), (None, 'ascii')]
+    if not quick:
+        menc = menc + [('utf-8-sig', 'latin-1'), (None, 'utf-16-be'), ('utf-32', 'utf-8')]
     obs.append(Ob('meta[symbolic]', ob_meta_sym, dict(encs=menc, N=NM), must_reach=['DiffXWriter.write_meta'], path_timeout=30,
                   desc='metadata with a symbolic string of 1..%d arbitrary code points and a symbolic integer vs REF_WRITE '
                        '(JSON text from CPython\'s pure-Python encoder under instrumentation on both sides; the arguments '
